@@ -752,9 +752,45 @@ theorem prepareNewAuth_congr {d : Defects} {room : RoomT} {a : AuthNode}
   unfold prepareNewAuth
   simp [g]
 
+/-- the acceptance reads the switches `roomRowUnchecked` and `newGroupUserAdminUnchecked` only
+    inside `prepare_room_with_history` -/
+theorem prepareNewAuth_switch {d d' : Defects} (h : d.newGroupUserAdminUnchecked = d'.newGroupUserAdminUnchecked)
+    (room : RoomT) (a : AuthNode) : prepareNewAuth d room a = prepareNewAuth d' room a := by
+  unfold prepareNewAuth; rw [h]
+
+theorem checkNewAuths_switch {d d' : Defects} (h : d.newGroupUserAdminUnchecked = d'.newGroupUserAdminUnchecked)
+    (room : RoomT) (old l : List AuthNode) : checkNewAuths d room old l = checkNewAuths d' room old l := by
+  induction l with
+  | nil => rfl
+  | cons a rest ih => unfold checkNewAuths; rw [ih, prepareNewAuth_switch h]
+
+theorem prepareWithHistory_switch {d d' : Defects} (h1 : d.roomRowUnchecked = d'.roomRowUnchecked)
+    (h2 : d.newGroupUserAdminUnchecked = d'.newGroupUserAdminUnchecked) (room : RoomT) (old cand : RoomNode) :
+    prepareWithHistory d room old cand = prepareWithHistory d' room old cand := by
+  unfold prepareWithHistory roomRowFor
+  rw [h1]
+  simp only [checkNewAuths_switch h2]
+
+/-- the candidate has none of the shapes the code does not check (today: the placing references) -/
+def candGuard (_s : RStore) (cand : RoomNode) : Bool := cand.placingOk
+
+/-- **C07_partial, as an equation**: on candidates whose placing references are signed by the
+    entries' authors with the right label and source entity, the code as written takes exactly the
+    decision of the intended checks -/
+theorem accept_congr {s : RStore} {cand : RoomNode} (g : candGuard s cand = true) :
+    accept Defects.asImplemented s cand = accept Defects.none s cand := by
+  unfold candGuard at g
+  unfold accept
+  simp only [g, Bool.not_true, Bool.and_false, Bool.false_eq_true, if_false]
+  have h : ∀ room old, prepareWithHistory Defects.asImplemented room old cand = prepareWithHistory Defects.none room old cand :=
+    fun room old => prepareWithHistory_switch (d := Defects.asImplemented) (d' := Defects.none) rfl rfl room old cand
+  simp only [h]
+
+/-! #### the same for /repo before the fixes (kept as a regression statement) -/
+
 theorem checkNewAuths_congr {room : RoomT} {old l : List AuthNode}
     (g : ∀ a ∈ l, old.any (·.node.id = a.node.id) = false → a.userAdminNodes = []) :
-    checkNewAuths Defects.asImplemented room old l = checkNewAuths Defects.none room old l := by
+    checkNewAuths Defects.beforeFixes room old l = checkNewAuths Defects.none room old l := by
   induction l with
   | nil => rfl
   | cons a rest ih =>
@@ -762,13 +798,13 @@ theorem checkNewAuths_congr {room : RoomT} {old l : List AuthNode}
     unfold checkNewAuths
     cases hold : old.any (·.node.id = a.node.id)
     · have he := g a List.mem_cons_self hold
-      have hp : prepareNewAuth Defects.asImplemented room a = prepareNewAuth Defects.none room a :=
+      have hp : prepareNewAuth Defects.beforeFixes room a = prepareNewAuth Defects.none room a :=
         prepareNewAuth_congr (by rw [he]; rfl)
       simp only [Bool.false_eq_true, if_false, hp, ihr]
     · simp only [if_true, ihr]
 
-/-- the candidate has none of the shapes the code does not check -/
-def candGuard (s : RStore) (cand : RoomNode) : Bool :=
+/-- the guard that was needed before /repo 77018f3 -/
+def candGuardBeforeFixes (s : RStore) (cand : RoomNode) : Bool :=
   cand.placingOk &&
   match s.rooms.find? (·.id = cand.node.id), readBack s cand.node.id with
   | some room, some old =>
@@ -781,10 +817,10 @@ theorem prepareWithHistory_congr {room : RoomT} {old cand : RoomNode}
     (g2 : (rowEq cand.node old.node ||
       (old.node.mdate < cand.node.mdate && cand.node.ent = 100 && room.isAdmin cand.node.author cand.node.mdate)) = true)
     (g3 : ∀ a ∈ cand.authNodes, old.authNodes.any (·.node.id = a.node.id) = false → a.userAdminNodes = []) :
-    prepareWithHistory Defects.asImplemented room old cand = prepareWithHistory Defects.none room old cand := by
-  have hrow : roomRowFor Defects.asImplemented room old cand = roomRowFor Defects.none room old cand := by
+    prepareWithHistory Defects.beforeFixes room old cand = prepareWithHistory Defects.none room old cand := by
+  have hrow : roomRowFor Defects.beforeFixes room old cand = roomRowFor Defects.none room old cand := by
     unfold roomRowFor
-    simp only [Defects.asImplemented, Defects.none, Bool.true_or, if_true, Bool.false_or]
+    simp only [Defects.beforeFixes, Defects.none, Bool.true_or, if_true, Bool.false_or]
     simp only [Bool.or_eq_true, Bool.and_eq_true, decide_eq_true_eq] at g2
     rcases g2 with h | ⟨⟨h1, h2⟩, h3⟩
     · simp [h]
@@ -818,11 +854,9 @@ theorem prepareWithHistory_congr {room : RoomT} {old cand : RoomNode}
             (fun a ha hno => g3 a (am.newUntouched a ha hno) hno)
           rw [this]
 
-/-- **C07_partial, as an equation**: on candidates that pass `candGuard`, the code as written takes
-    exactly the decision of the intended checks -/
-theorem accept_congr {s : RStore} {cand : RoomNode} (g : candGuard s cand = true) :
-    accept Defects.asImplemented s cand = accept Defects.none s cand := by
-  unfold candGuard at g
+theorem accept_congr_beforeFixes {s : RStore} {cand : RoomNode} (g : candGuardBeforeFixes s cand = true) :
+    accept Defects.beforeFixes s cand = accept Defects.none s cand := by
+  unfold candGuardBeforeFixes at g
   simp only [Bool.and_eq_true] at g
   obtain ⟨gp, gm⟩ := g
   unfold accept
